@@ -706,16 +706,19 @@ def c19(ctx):
 
     # standalone inclusion of each public header
     inc_jobs = []
-    for hdr in ('avel/Avel.hpp', 'avel/Aligned_allocator.hpp', 'avel/Cache.hpp', 'avel/Vector.hpp', 'avel/Scalar.hpp'):
+    # single headers, and the two documented entry headers in either order / after the intrinsics header / twice
+    for hdr in ('avel/Avel.hpp', 'avel/Aligned_allocator.hpp', 'avel/Cache.hpp', 'avel/Vector.hpp', 'avel/Scalar.hpp',
+                'avel/Avel.hpp+avel/Aligned_allocator.hpp', 'avel/Aligned_allocator.hpp+avel/Avel.hpp', 'immintrin.h+avel/Avel.hpp',
+                'avel/Avel.hpp+avel/Avel.hpp'):
         for (cxx, std) in matrix + extra_matrix:
             for ns in ([], ['SSE2']):
                 inc_jobs.append((hdr, cxx, std, ns))
 
     def run_inc(j):
         hdr, cxx, std, ns = j
-        src = os.path.join(ctx.scratch, 'inc_%s_%s_%s_%s.cpp' % (hdr.replace('/', '_'), cxx, std, '-'.join(ns) or 'none'))
+        src = os.path.join(ctx.scratch, 'inc_%s_%s_%s_%s.cpp' % (hdr.replace('/', '_').replace('+', '-'), cxx, std, '-'.join(ns) or 'none'))
         with open(src, 'w') as f:
-            f.write('#include <%s>\nint main() { return 0; }\n' % hdr)
+            f.write(''.join('#include <%s>\n' % h for h in hdr.split('+')) + 'int main() { return 0; }\n')
         cmd = flags_for(ns, cxx, std, 0) + ['-fsyntax-only', src]
         p = subprocess.run(cmd, stdout=subprocess.PIPE, stderr=subprocess.STDOUT, universal_newlines=True)
         err = [l for l in p.stdout.splitlines() if 'error' in l][:1]
